@@ -113,7 +113,11 @@ impl XRefTable {
                 let should_be_updated = match *dst {
                     XRef::Raw { gen_nr: gen, .. } | XRef::Free { gen_nr: gen, .. }
                         => entry.get_gen_nr() > gen,
-                    XRef::Stream { .. } | XRef::Invalid
+                    // compressed objects have generation 0; a newer section's entry must not
+                    // be replaced by whatever an older section says about the same number
+                    XRef::Stream { .. }
+                        => entry.get_gen_nr() > 0,
+                    XRef::Invalid
                         => true,
                     x => bail!("found {:?}", x)
                 };
